@@ -560,7 +560,8 @@ impl FileStateMachine {
             let value_len = u64::from_be_bytes(buffer[pos..pos + 8].try_into().unwrap()) as usize;
             pos += 8;
 
-            // Read value if present
+            // Read value if present. An INSERT always carries a value, which may be empty;
+            // the other opcodes are encoded with val_len = 0 and have none.
             let value = if value_len > 0 {
                 if pos + value_len > buffer.len() {
                     warn!("Incomplete value data at position {}, stopping replay", pos);
@@ -569,6 +570,8 @@ impl FileStateMachine {
                 let value_data = Bytes::from(buffer[pos..pos + value_len].to_vec());
                 pos += value_len;
                 Some(value_data)
+            } else if matches!(op_code, WalOpCode::Insert) {
+                Some(Bytes::new())
             } else {
                 None
             };
